@@ -29,7 +29,7 @@ ROUND2 = {
  "C06": " Long sequences on large stores (7-10 variables, up to 250 nodes) are judged with the integer-assignment operators of BigBdd (all denotations built bottom-up in one pass; agreement with RobddOps is checked on every small table).",
  "C14": " Deep frameworks (40-100 statements, diagrams across the 63/64/65-level boundary) are round-tripped as well (this found F16); the state a round trip hands back is audited like any other store state and a failed audit is a C14 verdict.",
  "C18": " A quarter of the sequences live on 2-6 positions scattered over a store up to 140 000 positions wide (word and bitmap-container boundaries); TLC maps real positions back through the record's position list.",
- "C19": " FrontendHangup.tla adds the last store being dropped in mid-run (the relay must keep mirroring; a forward-first relay is shown to fail); scheduled runs of the real chain include the hang-up, streams of 100-400 nodes forwarded in bursts across 32/64 message boundaries, and free-running runs of 120-200 nodes.",
+ "C19": " FrontendHangup.tla adds the last store being dropped in mid-run (the relay must keep mirroring - proved unbounded with TLAPS in proofs/FrontendHangupProof, 119 obligations; a forward-first relay is shown to fail); scheduled runs of the real chain include the hang-up, streams of 100-400 nodes forwarded in bursts across 32/64 message boundaries, and free-running runs of 120-200 nodes.",
 }
 ROUND2["C02"] = ROUND2["C03"] = ROUND2["C04"] = ROUND2["C05"] = ROUND2["C01"]
 ROUND2["C03"] += " C03-C05 also run frameworks with 256-512 stable models (mutual-attack pairs, exactly-one triples, self-supporters)."
